@@ -13,6 +13,7 @@ CONSTANTS
   AdvMoves = {}
   Forged = {}
   AdvKeys = {}
+  KBResignKeys = {}
   MaxAdv = 0
   MaxDiscs = 0
   VerifyArgs <- VArgs
